@@ -299,6 +299,7 @@ func runScenario(sc *scenario) *result {
 			}()
 		}
 		handles := make([]*scheduler.ScheduledJob, n)
+		depSlices := map[string][]*scheduler.ScheduledJob{}
 		for j := 0; j < n; j++ {
 			if sc.Late {
 				// wait for the bodies of all dependencies to end (bounded: a dependency may
@@ -319,9 +320,16 @@ func runScenario(sc *scenario) *result {
 					runtime.Gosched()
 				}
 			}
-			deps := make([]*scheduler.ScheduledJob, len(sc.Deps[j]))
-			for i, d := range sc.Deps[j] {
-				deps[i] = handles[d]
+			// Jobs naming the same dependencies share one slice (a fan-out of children built from one
+			// `parents` slice): the scheduler must treat Job.Dependencies as read-only memory of the caller.
+			key := fmt.Sprint(sc.Deps[j])
+			deps, shared := depSlices[key]
+			if !shared {
+				deps = make([]*scheduler.ScheduledJob, len(sc.Deps[j]))
+				for i, d := range sc.Deps[j] {
+					deps[i] = handles[d]
+				}
+				depSlices[key] = deps
 			}
 			res.enqStamp[j] = atomic.AddInt64(&seq, 1)
 			atomic.AddInt64(&submitted, 1)
